@@ -10,6 +10,7 @@ import Logg.Drive.C11
 import Logg.Drive.C12
 import Logg.Drive.C16
 import Logg.Drive.C17
+import Logg.Drive.C19
 import Logg.Drive.C20
 
 open Logg
@@ -23,6 +24,8 @@ structure DriverState where
   c12 : List (Int × Int) := []
   c17 : Registry := Bridge.genRegistry
   c16 : Drive.C16.St := {}
+  c19p : Buf := { data := [], cap := 0 }
+  c19b : Buf := { data := [], cap := 0 }
 
 def dispatch (st : DriverState) (line : String) : DriverState × String :=
   match (line.splitOn " ").filter (· ≠ "") with
@@ -35,6 +38,8 @@ def dispatch (st : DriverState) (line : String) : DriverState × String :=
   | "C12" :: rest => let (s, o) := Drive.C12.step st.c12 rest; ({ st with c12 := s }, o)
   | "C16" :: rest => let (s, o) := Drive.C16.step st.c16 rest; ({ st with c16 := s }, o)
   | "C17" :: rest => let (s, o) := Drive.C17.step st.c17 rest; ({ st with c17 := s }, o)
+  | "C19P" :: rest => let (s, o) := Drive.C19.step st.c19p rest; ({ st with c19p := s }, o)
+  | "C19B" :: rest => let (s, o) := Drive.C19.step st.c19b rest; ({ st with c19b := s }, o)
   | "C20" :: rest => (st, Drive.C20.step rest)
   | "Q" :: rest => (st, Drive.C17.stepQ rest)
   | _ => (st, "bad-op")
